@@ -4,7 +4,7 @@ open BS.Prog BS.Sem BS.KV Driver
 
 structure St where
   vals : List (Option Shards) := []
-  ctrs : List (List Nat) := []
+  ctrs : List C01.RunCtr := []
   discarded : List Nat := []
   models : List String := []
 
@@ -34,7 +34,7 @@ def stepOp (s : St) (op obs : String) : Except String St := do
     let (p, _) := ProgParse.parseProgram prog
     if !usesAll s p then
       if obs != "skipped" then throw "a run using a failed result was not skipped by the harness"
-      return { s with vals := s.vals ++ [none], ctrs := s.ctrs ++ [[]] }
+      return { s with vals := s.vals ++ [none], ctrs := s.ctrs ++ [{}] }
     match C01.checkProgram prog (valsD s) s.ctrs obs with
     | .ok (sh, c, m) => return { s with vals := s.vals ++ [some sh], ctrs := s.ctrs ++ [c], models := s.models ++ [m] }
     | .error e => throw e
@@ -57,13 +57,13 @@ def stepOp (s : St) (op obs : String) : Except String St := do
   | "rundiscard" :: k :: _ =>
     let prog := joinWith " " (ws.drop 2)
     let (p, _) := ProgParse.parseProgram prog
-    if obs == "skipped" then return { s with vals := s.vals ++ [none], ctrs := s.ctrs ++ [[]] }
+    if obs == "skipped" then return { s with vals := s.vals ++ [none], ctrs := s.ctrs ++ [{}] }
     let s := { s with discarded := (List.range s.vals.length) ++ s.discarded }
     let _ := k
-    if !usesAll s p then return { s with vals := s.vals ++ [none], ctrs := s.ctrs ++ [[]] }
+    if !usesAll s p then return { s with vals := s.vals ++ [none], ctrs := s.ctrs ++ [{}] }
     if obs.startsWith "err:" || obs.startsWith "fatal:" then
       -- an evaluation racing with a discard of its inputs may fail; it must not hang or return other rows
-      return { s with vals := s.vals ++ [none], ctrs := s.ctrs ++ [[]] }
+      return { s with vals := s.vals ++ [none], ctrs := s.ctrs ++ [{}] }
     match C01.checkProgram prog (valsD s) s.ctrs obs (lenient := true) with
     | .ok (sh, c, m) => return { s with vals := s.vals ++ [some sh], ctrs := s.ctrs ++ [c], models := s.models ++ [m] }
     | .error e => throw e
